@@ -31,13 +31,16 @@ def parseHyphen (spec : Text) : Option VersionRange :=
     | _, _ => none
   | _ => none
 
+/-- `VersionRange::is_wildcard`: "*", "x" or "X" -/
+def isWildcard (c : Text) : Bool := c == ['*'] || eqIgnoreAsciiCase c ['x']
+
 /-- `VersionRange::parse_wildcard` -/
 def parseWildcard (spec : Text) : Option VersionRange :=
   match splitChar '.' spec with
   | [major, x] =>
-    if eqIgnoreAsciiCase x ['x'] then (parseU64 major).map .wildcardMajor else none
+    if isWildcard x then (parseU64 major).map .wildcardMajor else none
   | [major, minor, x] =>
-    if eqIgnoreAsciiCase x ['x'] then
+    if isWildcard x then
       match parseU64 major, parseU64 minor with
       | some a, some b => some (.wildcardMinor a b)
       | _, _ => none
@@ -62,16 +65,25 @@ def parseRange (spec0 : Text) : Option VersionRange :=
     match stripPrefix "<".toList spec with
     | some rest => (parseVersion (trim rest)).map .lt
     | none =>
+    match stripPrefix "=".toList spec with
+    | some rest => (parseVersion (trim rest)).map .exact
+    | none =>
     match stripPrefix "^".toList spec with
     | some rest => (parseVersion (trim rest)).map .caret
     | none =>
     match stripPrefix "~".toList spec with
     | some rest => (parseVersion (trim rest)).map .tilde
     | none =>
-      if spec == ['*'] then some .any
+      if isWildcard spec then some .any
       else match parseWildcard spec with
         | some r => some r
         | none => (parseVersion spec).map .exact
+
+/-- `before.ends_with(['<', '>', '=', '^', '~'])` -/
+def endsWithOp (t : Text) : Bool :=
+  match t.getLast? with
+  | some c => c == '<' || c == '>' || c == '=' || c == '^' || c == '~'
+  | none => false
 
 /-- `VersionSpec::split_and_parts` (after the byte-offset fix): `cur` is the text
     since `current_start` (reversed); at a space with non-blank text before it,
@@ -84,7 +96,9 @@ def splitAndPartsAux : (rest : Text) → (cur : Text) → (skip : Nat) → List 
   | c :: cs, cur, 0 =>
     if c == ' ' then
       let before := trim cur.reverse
-      if !before.isEmpty then
+      -- an operator separated from its version (">= 1.0.0"): the space belongs to the part
+      if endsWithOp before then splitAndPartsAux cs (c :: cur) 0
+      else if !before.isEmpty then
         match cs with
         | '-' :: ' ' :: _ => splitAndPartsAux cs (c :: cur) 2     -- skip " - " (3 chars incl. this one)
         | _ => before :: splitAndPartsAux cs [] 0
